@@ -71,8 +71,9 @@ def digest(obj):
         return (type(obj).__name__, tuple(digest(v) for v in obj))
     if isinstance(obj, dict):
         return ("dict", tuple((k, digest(v)) for k, v in obj.items()))
-    if hasattr(obj, "members") and hasattr(obj, "check"):  # ClimatologyConfig
-        return ("clim", tuple(digest(tuple(m)) for m in obj.members))
+    if hasattr(obj, "members") and hasattr(obj, "check"):  # ClimatologyConfig: every attribute, not only the members
+        return ("clim", tuple(digest(tuple(m)) for m in obj.members),
+                tuple(sorted((k, repr(digest(v))) for k, v in vars(obj).items() if k != "_members")))
     try:
         import pandas as pd
         if isinstance(obj, (pd.Series, pd.Index)):
@@ -122,14 +123,15 @@ def validate(rec, site, result, n, **info):
     return [int(v) for v in vals]
 
 
-def run_once(rec, tc, tag=""):
-    """Build the arguments, call, validate, check purity and repeatability. Returns flags or SKIP."""
+def run_once(rec, tc, tag="", persistent=None):
+    """Build the arguments (or use the persistent objects of a fixture), call, validate, check purity and
+    repeatability. Returns flags or SKIP."""
     t = REG()[tc["test"]]
     case = tc["case"]
     C = carriers.Carrier(data=tc.get("carrier", "f64"), junk=tc.get("junk", 0.0))
     site = f"{tc['test']}"
     n = t.n(case)
-    args, kwargs = t.build(case, C)
+    args, kwargs = persistent if persistent is not None else t.build(case, C)
     before = (digest(list(args)), digest(kwargs))
     res = rec.call(site, t.func(), *args, **kwargs)
     if res is SKIP:
@@ -149,6 +151,18 @@ def run_once(rec, tc, tag=""):
         rec.fail(site, "a second call with the same arguments returned different flags", expected=got, got=got2,
                  not_repeatable=True, test=tc["test"])
         return SKIP
+    if persistent is not None:
+        # the same logical arguments as brand-new objects: state hidden in long-lived argument / parameter objects
+        # (caches keyed on identity, memoised attributes) shows up as a difference
+        fa, fk = t.build(case, C)
+        res3 = rec.call(site, t.func(), *fa, **fk)
+        if res3 is SKIP:
+            return SKIP
+        got3 = validate(rec, site, res3, n, test=tc["test"], length=n, fresh_objects=True)
+        if got3 is not SKIP and got3 != got:
+            rec.fail(site, "flags with long-lived argument objects differ from flags with freshly built equal objects",
+                     expected=got3, got=got, stale_object_state=True, test=tc["test"])
+            return SKIP
     return got
 
 
@@ -167,14 +181,43 @@ def step(rec, state, op):
     """Executes one operation of a history against `state` = {"fixtures": [...], "first": {}}."""
     kind = op["op"]
     if kind == "add":
-        state["fixtures"].append(op["tc"])
-        state["digests"].append(digest(op["tc"]["case"]))
+        tc = op["tc"]
+        state["fixtures"].append(tc)
+        state["digests"].append(digest(tc["case"]))
+        t = REG()[tc["test"]]
+        try:
+            state["objs"].append(t.build(tc["case"], carriers.Carrier(data=tc.get("carrier", "f64"), junk=tc.get("junk", 0.0))))
+        except Exception:
+            state["objs"].append(None)
+    elif kind == "cross":
+        # climatology: the long-lived config object of fixture i applied to the data of fixture j
+        fx = [k for k, f in enumerate(state["fixtures"]) if f["test"] == "climatology" and state["objs"][k] is not None]
+        if len(fx) < 1:
+            return
+        i, j = fx[op["i"] % len(fx)], fx[op["j"] % len(fx)]
+        from ..tests import b_clim
+        cfg_i = state["objs"][i][0][0]
+        tj = state["fixtures"][j]
+        (_, x, tt, z), _ = b_clim(tj["case"], carriers.CANON)
+        (fresh_cfg, _, _, _), _ = b_clim(state["fixtures"][i]["case"], carriers.CANON)
+        t = REG()["climatology"]
+        n = t.n(tj["case"])
+        state["calls"] += 1
+        a = rec.call("climatology", t.func(), cfg_i, x, tt, z)
+        b = rec.call("climatology", t.func(), fresh_cfg, x, tt, z)
+        if a is SKIP or b is SKIP:
+            return
+        ga, gb = validate(rec, "climatology", a, n, cross=True), validate(rec, "climatology", b, n, cross=True)
+        if ga is not SKIP and gb is not SKIP and ga != gb:
+            rec.fail("climatology", "a config object used before gives different flags than an equal, freshly built one",
+                     expected=gb, got=ga, stale_object_state=True, test="climatology")
+        state["cross"] = True
     elif kind == "call":
         if not state["fixtures"]:
             return
         i = op["i"] % len(state["fixtures"])
         tc = state["fixtures"][i]
-        got = run_once(rec, tc)
+        got = run_once(rec, tc, persistent=state["objs"][i])
         if got is SKIP:
             return
         state["calls"] += 1
@@ -206,7 +249,7 @@ def step(rec, state, op):
 
 
 def new_state():
-    return {"fixtures": [], "digests": [], "first": {}, "calls": 0, "repeat_after_other": False}
+    return {"fixtures": [], "digests": [], "objs": [], "first": {}, "calls": 0, "repeat_after_other": False, "cross": False}
 
 
 def check_history(case, rec):
@@ -252,6 +295,11 @@ def machine(rec, tier):
             for k in (i, j, i):
                 self.do({"op": "call", "i": k})
 
+        @rule(i=st.integers(0, 7), j=st.integers(0, 7))
+        def cross(self, i, j):
+            self.do({"op": "cross", "i": i, "j": j})
+            self.do({"op": "call", "i": i})
+
         @rule()
         def call_all(self):
             for k in range(len(self.state["fixtures"])):
@@ -281,6 +329,8 @@ def aba_case(draw, tier="quick"):
     b = draw(c01_case(tier, [a["test"]]))
     ops = [{"op": "add", "tc": a}, {"op": "add", "tc": b}, {"op": "call", "i": 0}, {"op": "call", "i": 1},
            {"op": "call", "i": 0}]
+    if a["test"] == "climatology":
+        ops += [{"op": "cross", "i": 0, "j": 1}, {"op": "cross", "i": 1, "j": 0}, {"op": "call", "i": 0}, {"op": "call", "i": 1}]
     if draw(st.booleans()):
         ops.insert(3, {"op": "fx", "expr": draw(st.sampled_from(EXPRS))})
     return {"ops": ops}
